@@ -202,6 +202,25 @@ Theorem C17_history_good : forall ops,
   Forall (good (length (st (run_state init_state ops)))) (env (run_state init_state ops)).
 Proof. exact (fun ops => run_Inv ops init_state Inv_init). Qed.
 
+(* ... so shadowing through a child is a frame in EVERY reachable state: whatever history built the forest, an
+   assignment through a fresh child of any of its contexts changes no name for any context of the forest *)
+Theorem C17_reachable_child_shadow : forall ops i c n v,
+  let x := run_state init_state ops in
+  nth_error (env x) i = Some c ->
+  let s1 := fst (create_child (st x) c) in
+  let ch := snd (create_child (st x) c) in
+  let s2 := fst (set_data s1 ch n v) in
+  get_data s2 ch n = Some v
+  /\ (forall j d n', nth_error (env x) j = Some d -> get_data s2 d n' = get_data (st x) d n')
+  /\ (forall n', normalize n' <> normalize n -> get_data s2 ch n' = get_data (st x) c n').
+Proof.
+  intros ops i c n v x Hc s1 ch s2.
+  pose proof (run_Inv ops init_state Inv_init) as HI. fold x in HI.
+  destruct (child_shadow (st x) c n v (nth_error_good _ _ _ _ HI Hc)) as [A [B C]].
+  split; [exact A|]. split; [|exact C].
+  intros j d n' Hd. apply B. exact (nth_error_good _ _ _ _ HI Hd).
+Qed.
+
 (* non-vacuity: shadowing `x` through a child of a multi-context over two roots *)
 Example C17_child_example :
   let ops := [ONewPlain None; OSet 0 [120%Z] 1%Z; ONewPlain None; OSet 1 [121%Z] 2%Z; ONewMulti [0; 1]; OChild 2;
@@ -221,6 +240,7 @@ Proof. vm_compute. repeat split. Qed.
 
 Print Assumptions C17_child_transparent.
 Print Assumptions C17_child_shadow.
+Print Assumptions C17_reachable_child_shadow.
 Print Assumptions C17_linked_read.
 Print Assumptions C17_multi_single.
 Print Assumptions C17_multi_own_layers_first.
